@@ -274,26 +274,52 @@ func runDirCase(c *tcase, root string, flavour int) (o outcome) {
 	return o
 }
 
-// ---- EnsureTreeState: names are "<sub>/<name>"; sub in {".", "s1", "s1/s2"} ----
+// ---- EnsureTreeState: keys are "<dir>/<name>" and the markers "<dir>/" (dir in {".", "s1", ...}) ----
+
+func splitKey(full string) (sub, n string) {
+	i := strings.LastIndex(full, "/")
+	return full[:i], full[i+1:]
+}
+
+func treeList(l []string) []string {
+	out := []string{}
+	seen := map[string]bool{}
+	for _, p := range l {
+		d, b := filepath.Split(p)
+		a, _ := abstract(b)
+		d = strings.TrimSuffix(d, "/")
+		if d == "" {
+			d = "."
+		}
+		a = d + "/" + a
+		if seen[a] {
+			a = "dup!" + a
+		}
+		seen[a] = true
+		out = append(out, a)
+	}
+	sort.Strings(out)
+	return out
+}
 
 func runTreeCase(c *tcase, root string, flavour int) (o outcome) {
 	base := filepath.Join(root, "d")
 	src := filepath.Join(root, "src")
 	mustNil(os.MkdirAll(base, 0755))
 	mustNil(os.MkdirAll(src, 0755))
-	subs := map[string]bool{}
+	exists := map[string]bool{}
 	for full, tok := range c.Init {
-		sub, n := filepath.Split(full)
-		sub = filepath.Clean(sub)
-		if tok == "nodir" { // marker entry "<sub>/": the subdirectory itself does not exist
-			continue
-		}
-		subs[sub] = true
-		if n == "" {
+		sub, n := splitKey(full)
+		if n == "" && tok != "nodir" {
+			exists[sub] = true
 			mustNil(os.MkdirAll(filepath.Join(base, sub), 0755))
+		}
+	}
+	for full, tok := range c.Init {
+		sub, n := splitKey(full)
+		if n == "" || !exists[sub] {
 			continue
 		}
-		mustNil(os.MkdirAll(filepath.Join(base, sub), 0755))
 		populate(filepath.Join(base, sub), concrete(n), tok)
 	}
 	content := map[string]map[string]osutil.FileState{}
@@ -302,19 +328,21 @@ func runTreeCase(c *tcase, root string, flavour int) (o outcome) {
 		keys = append(keys, k)
 	}
 	sort.Strings(keys)
+	for _, full := range keys {
+		sub, n := splitKey(full)
+		if n == "" && c.Des[full] == "listed" {
+			content[sub] = map[string]osutil.FileState{}
+		}
+	}
 	i := 0
 	for _, full := range keys {
+		sub, n := splitKey(full)
 		tok := c.Des[full]
-		sub, n := filepath.Split(full)
-		sub = filepath.Clean(sub)
-		if tok == "absent" {
+		if n == "" || tok == "absent" {
 			continue
 		}
 		if content[sub] == nil {
-			content[sub] = map[string]osutil.FileState{}
-		}
-		if n == "" { // "<sub>/": "listed" -> the directory is a key of content with no files
-			continue
+			panic("harness: desired file in a directory that is not listed: " + full)
 		}
 		content[sub][concrete(n)] = desiredState(tok, src, strings.ReplaceAll(full, "/", "_"), flavour+i)
 		i++
@@ -328,8 +356,8 @@ func runTreeCase(c *tcase, root string, flavour int) (o outcome) {
 			}
 		}()
 		changed, removed, err := osutil.EnsureTreeState(base, globsFor(c.Globs), content)
-		o.Changed = absList("", changed)
-		o.Removed = absList("", removed)
+		o.Changed = treeList(changed)
+		o.Removed = treeList(removed)
 		if err != nil {
 			o.Err = true
 			o.ErrMsg = strings.ReplaceAll(err.Error(), root, "$ROOT")
@@ -341,37 +369,34 @@ func runTreeCase(c *tcase, root string, flavour int) (o outcome) {
 	if o.Removed == nil {
 		o.Removed = []string{}
 	}
+	known := map[string]bool{}
 	for full := range c.Init {
-		sub, n := filepath.Split(full)
-		sub = filepath.Clean(sub)
+		sub, n := splitKey(full)
+		isDir := osutil.IsDirectory(filepath.Join(base, sub))
 		if n == "" {
-			if osutil.IsDirectory(filepath.Join(base, sub)) {
+			known[filepath.Clean(sub)] = true
+			if isDir {
 				o.Dir[full] = "dir"
 			} else {
 				o.Dir[full] = "nodir"
 			}
 			continue
 		}
-		o.Dir[full] = observe(filepath.Join(base, sub), concrete(n))
+		known[filepath.Join(sub, concrete(n))] = true
+		if isDir {
+			o.Dir[full] = observe(filepath.Join(base, sub), concrete(n))
+		} else {
+			o.Dir[full] = "none"
+		}
 	}
 	filepath.Walk(base, func(p string, fi os.FileInfo, err error) error {
 		if err != nil || p == base {
 			return nil
 		}
 		rel, _ := filepath.Rel(base, p)
-		sub, n := filepath.Split(rel)
-		sub = filepath.Clean(sub)
-		a, _ := abstract(n)
-		if _, ok := c.Init[filepath.Join(sub, a)]; ok {
-			if fi.IsDir() {
-				return filepath.SkipDir // a managed name occupied by a directory: content is ours
-			}
-			return nil
+		if !known[rel] {
+			o.Extra = append(o.Extra, rel)
 		}
-		if _, ok := c.Init[rel+"/"]; ok && fi.IsDir() {
-			return nil
-		}
-		o.Extra = append(o.Extra, rel)
 		return nil
 	})
 	return o
